@@ -434,6 +434,10 @@ func writeComputedFieldExpression(w *formatting.IndentedWriter, expression dsl.E
 					(t.Operator == dsl.BinaryOpPow && l.Operator == dsl.BinaryOpPow)) {
 					requiresParentheses = true
 				}
+				if _, ok := t.Left.(*dsl.UnaryExpression); ok && t.Operator == dsl.BinaryOpPow {
+					// `**` binds tighter than unary minus in Python
+					requiresParentheses = true
+				}
 
 				if requiresParentheses {
 					w.WriteString("(")
